@@ -52,6 +52,9 @@ def plan(rng, tier):
             single.append(["set", _num(rng)])
         elif r < 0.7:
             single.append(["call"])
+        elif r < 0.76:
+            # state protocol on a live object: x.__setstate__(y.__getstate__())
+            single.append(["setstate", rng.choice([0, 0, _num(rng)])])
         elif r < 0.8:
             single.append(["commit"])
         elif r < 0.9:
@@ -150,6 +153,10 @@ def _single(plan, ctx):
             cell = op[1]
         elif name == "call":
             pass
+        elif name == "setstate":
+            ln.__setstate__(Length(op[1]).__getstate__())
+            ln._p_changed = True
+            cell = op[1]
         elif name == "commit":
             c.commit()
             committed = cell
